@@ -691,7 +691,13 @@ LostResume == Quiescent /\ state = "Connected" /\ conn = "up" /\ subs # {} /\ lo
 Beh == [steps |-> hist, stuck |-> Stuck, lostresume |-> LostResume,
         blockedApps |-> {a \in Apps : apc[a] # "idle"}, lpc |-> lpc, mpc |-> mpc, state |-> state,
         pausech |-> pausech, resumech |-> resumech, mux |-> mux, subs |-> subs,
-        fseq |-> fseq, lost |-> lost, closed |-> closedSeen]
+        fseq |-> fseq, lost |-> lost, closed |-> closedSeen, full |-> {}]
+\* a goroutine is parked at a signal send and the channel is full: the next step is the send that
+\* must not block (regression guard of the non-blocking repair)
+FullRoles == {a \in Apps : (apc[a] = "f.psend" /\ pausech = Cap) \/ (apc[a] = "s.send" /\ resumech = Cap)}
+             \cup (IF lpc = "ps.send" /\ pausech = Cap THEN {"loop"} ELSE {})
+InvEmitFull == (Hist /\ FullRoles # {}) => PrintT("BEH " \o ToJson([Beh EXCEPT !.full = FullRoles]))
+
 InvEmit == (Hist /\ EmitNow) => PrintT("BEH " \o ToJson(Beh))
 \* only the interesting ends (exhaustive generation: one behaviour per distinct end state)
 InvEmitBad == (Hist /\ (Stuck \/ (AtRest /\ LostResume))) => PrintT("BEH " \o ToJson(Beh))
